@@ -34,4 +34,8 @@ pub assume_specification<T, P: FnOnce(&T) -> bool>[ Option::<T>::filter ](o: Opt
 pub assume_specification<T>[ bool::then_some ](b: bool, t: T) -> (r: Option<T>)
     ensures r == (if b { Some(t) } else { None::<T> });
 
+/// Result::unwrap_or: the Ok value, else the default
+pub assume_specification<T, E>[ core::result::Result::<T, E>::unwrap_or ](r: core::result::Result<T, E>, default: T) -> (o: T)
+    ensures o == (match r { Ok(t) => t, Err(_) => default });
+
 } // verus!
